@@ -78,7 +78,7 @@ class CollationManager(context_class_base):
     """
     lc_collate: Union[None, str, tuple[Optional[str], Optional[str]]]
     fallback: bool = False
-    _current_lc_collate: Optional[tuple[Optional[str], Optional[str]]] = None
+    _current_lc_collate: Optional[str] = None
 
     def __init__(self,
                  collation: Optional[str],
@@ -133,19 +133,22 @@ class CollationManager(context_class_base):
         if self.lc_collate is not None:
             # Only one locale set can be used at a time
             _locale_collate_lock.acquire()
-            self._current_lc_collate = locale.getlocale(locale.LC_COLLATE)
-
             try:
-                locale.setlocale(locale.LC_COLLATE, self.lc_collate)
+                # Save the locale string as it is: getlocale() returns a normalized
+                # tuple that does not always restore the same value (C.utf8 -> C.UTF-8).
+                self._current_lc_collate = locale.setlocale(locale.LC_COLLATE, None)
+                try:
+                    locale.setlocale(locale.LC_COLLATE, self.lc_collate)
+                except locale.Error:
+                    if not self.fallback:
+                        raise
+                    locale.setlocale(locale.LC_COLLATE, 'en_US.UTF-8')
             except locale.Error:
-                if not self.fallback:
-                    self._current_lc_collate = None
-                    _locale_collate_lock.release()
-
-                    msg = f"Unsupported collation {self.collation!r}"
-                    raise xpath_error('FOCH0002', msg, self.token) from None
-
-                locale.setlocale(locale.LC_COLLATE, 'en_US.UTF-8')
+                # LC_COLLATE is unchanged: release the lock before leaving
+                self._current_lc_collate = None
+                _locale_collate_lock.release()
+                msg = f"Unsupported collation {self.collation!r}"
+                raise xpath_error('FOCH0002', msg, self.token) from None
 
         return self
 
@@ -153,9 +156,11 @@ class CollationManager(context_class_base):
                  exc_val: Optional[BaseException],
                  exc_tb: Optional[TracebackType]) -> None:
         if self._current_lc_collate is not None:
-            locale.setlocale(locale.LC_COLLATE, self._current_lc_collate)
-            self._current_lc_collate = None
-            _locale_collate_lock.release()
+            try:
+                locale.setlocale(locale.LC_COLLATE, self._current_lc_collate)
+            finally:
+                self._current_lc_collate = None
+                _locale_collate_lock.release()
 
     def eq(self, a: Any, b: Any) -> bool:
         if not isinstance(a, str) or not isinstance(b, str):
